@@ -531,6 +531,28 @@ impl WorkerState for W {
                             }
                             o.classes.push("with-test-blocks".into());
                         }
+                        // the same values through handles that outlive the package
+                        {
+                            let mut keep = Vec::new();
+                            for i in 0..g.items.len() {
+                                if g.items[i].no_helper {
+                                    continue;
+                                }
+                                let fname = if g.items[i].is_const { format!("read_{}", name(&g, i)) } else { format!("call_{}", name(&g, i)) };
+                                let full = if g.items[i].module == 0 { fname.clone() } else { format!("m{}.{}", g.items[i].module, fname) };
+                                match pkg.get_function::<fn() -> i32>(&full) {
+                                    Ok(f) => keep.push((full, f, vals[&i])),
+                                    Err(e) => return fail("get_function", format!("{full}: {e}")),
+                                }
+                            }
+                            drop(pkg);
+                            for (full, f, want) in &keep {
+                                let got = $call(f) as i64;
+                                if got != *want {
+                                    return fail("wrong-value:after-the-package-was-dropped", format!("{full}() returned {got} after the package was dropped (the handle is still alive), expected {want}"));
+                                }
+                            }
+                        }
                         let later = host::take_log();
                         if !later.is_empty() {
                             return fail("re-evaluated", format!("constant initialisers ran again after compilation: {} events", later.len()));
